@@ -300,6 +300,12 @@ def assemble(
 
     except FlipJumpException as fj_exception:
         raise fj_exception
+    except RecursionError as recursion_error:
+        raise FlipJumpAssemblerException(
+            "The program is nested too deeply for python's recursion limit: an expression with hundreds of chained "
+            "operators / parentheses, or macros nested deeper than the recursion limit allows. "
+            "Split the expression into constants, or use a bigger max_recursion_depth."
+        ) from recursion_error
     except Exception as unknown_exception:
         raise FlipJumpAssemblerException(
             "Unknown exception during assembling the .fj files, please report this bug"
